@@ -90,8 +90,8 @@ switches the ignore flags control (regenerated wiring) -/
 theorem wiring_pinned :
     (Generated.wiring.lookup "stepValidateOutput").map (·.2.1) =
       some ["=Validate output", "@stepOutputServicesScopes", "@stepOutputCircularDeps", "@stepOutputParamsExist", "@stepOutputServicesExist"] ∧
-    (Generated.wiring.lookup "stepOutputParamsExist").map (·.2.1) = some ["!value output.ValidateParamsExist", "=Missing parameters"] ∧
-    (Generated.wiring.lookup "stepOutputServicesExist").map (·.2.1) = some ["!value output.ValidateServicesExist", "=Missing services"] := by
+    Generated.argsAre ((Generated.wiring.lookup "stepOutputParamsExist").map (·.2.1)) ["!value output.ValidateParamsExist", "=Missing parameters"] = true ∧
+    Generated.argsAre ((Generated.wiring.lookup "stepOutputServicesExist").map (·.2.1)) ["!value output.ValidateServicesExist", "=Missing services"] = true := by
   decide
 
 /-! ### what acceptance means for the generated container -/
